@@ -380,7 +380,7 @@ class QuicSession:
 
         expected_pkn = largest_pkn + 1
         pkn_window = 1 << pkn_len_bits
-        pkn_hwindow = pkn_window / 2
+        pkn_hwindow = pkn_window // 2
         pkn_mask = pkn_window - 1
 
         candidate_pkn = (expected_pkn & ~pkn_mask) | truncated_pkn
